@@ -90,6 +90,14 @@ def cases(ctx):
         c = gen.rand_circuit(r, n_in=r.randint(1, 5), n_gates=r.randint(2, 9), max_fanin=3, consts=0.2, extra_out=0.4, out_is_input=0.2, loaded_in_out=0.15)
         g3.append(proj(c))
     fams.append(("G3", g3))
+    pre = []
+    for p in cone_family():
+        if sum(1 for t in p["ty"] if t == "input") in (2, 3, 4):
+            q = copy.deepcopy(p)
+            ren = {"i0": "i1", "i1": "i10", "i2": "en", "i3": "en_b"}
+            q["names"] = [ren.get(n, n) for n in q["names"]]
+            pre.append(q)
+    fams.append(("PREFIX", pre))
     for src, fam in fams:
         for k, p in enumerate(fam):
             r = ctx.rng("C11n", src, k)
